@@ -8,6 +8,12 @@ CLAIMS={
  "C03":("Keyed sparse conditional constant propagation over the decoder: for each of the 2x256 opcode bytes the extracted behaviour (operand kinds/order, repeat count, delivered method, argument wiring incl. arc flag bits, next mode, reserved=>DecodeError with nothing read) is compared with tables written from the specification; the nine operand decoders are compared with the number/colour tables as bit-wiring and rational normal forms (all 256 one-byte colours, every form of every number kind, acceptance gate on length and tag). Exhaustive over the key spaces; no input value is sampled.",
         "Values are decided as formulas over the reals / as bit wiring; the float32 reinterpretation is an opaque function; metadata framing is decided under C13.",
         "static analysis: keyed SCCP with gated joins over go/ssa, bit-level and rational normal forms, compared with specification tables"),
+ "C05":("Every Renderer drawing method is evaluated once, symbolically, on the state Reset leaves; the state-changing rasteriser calls it makes (which, in which order, exactly once on the enabled path) and every coordinate argument, brought to rational normal form, are compared with the reference geometry of the property: affine viewBox->rectangle image for absolute operands, pen plus scaled operand for relative ones, untouched pen coordinate for H/V, reflection of the previous same-degree control point (or the pen) for smooth verbs, close before move with the pen re-read after closing, Reset(Dx,Dy)+MoveTo at path start, ClosePath+Draw(z.r, fill, (0,0)) at path end; smooth-curve state after each verb. All 16 non-arc verbs plus the four path-structure methods, for all operands/viewBoxes/rectangles at once.",
+        "Rounding; that the rasteriser's ClosePath leaves the pen at the sub-path start (assumed); sequences of verbs are covered through the per-verb pre/post state, not as histories.",
+        "static analysis: symbolic abstract interpretation of go/ssa with event traces + rational normal forms compared with a reference geometry"),
+ "C06":("Structural clauses of the arc property: the zero-radius branch issues exactly one LineTo to the endpoint mapped into pixel space (and is taken whenever rx or ry is zero); every cubic receives x-map results in x positions and y-map results in y positions; the helper maps are the viewBox->rectangle map, its linear part and inverse; the arc is cut into n contiguous equal angle intervals by a loop counted 0..n with one cubic per iteration; the relative form adds the operand to the un-mapped pen and passes radii/rotation/flags through; smooth state reset.",
+        "That the curve lies on the requested ellipse, direction/extent chosen by the flags, radius scale-up, and the <=4 bound on n (claimed under C02.8 when built): these depend on the numerical content of the endpoint-to-centre conversion and are not applicable to static analysis.",
+        "static analysis: symbolic abstract interpretation of go/ssa with opaque helper summaries, rational normal forms, guard substitution"),
  "C12":("Static decision over real arithmetic: the results of AspectMeet/AspectSlice/Size are brought to rational normal form per branch arm and the property's clauses (aspect, touches target, fits/covers under the arm's own condition, alignment at 0, 1/2, 1) are decided as polynomial identities for all inputs at once.",
         "float32 rounding is not decided; positive finite sizes are assumed as the property states.",
         "static analysis: gated-SSA algebraic value numbering (rational normal forms), identities by cross-multiplication"),
